@@ -46,6 +46,25 @@ def main():
         key = args[args.index("-k") + 1]
     only_b = "--benign-only" in args
     only_m = "--mutants-only" in args
+    # every edit must apply to today's tree (sequentially per case), checked up front
+    stale = 0
+    for c in load_cases():
+        files = {}
+        for e in c["edits"]:
+            f = files.get(e["file"])
+            if f is None:
+                f = open(os.path.join(REPO, e["file"])).read()
+            if f.count(e["old"]) != 1:
+                print("STALE %s: edit does not apply exactly once in %s (count=%d): %r" % (c["id"], e["file"], f.count(e["old"]), e["old"][:70]))
+                stale += 1
+                break
+            files[e["file"]] = f.replace(e["old"], e["new"])
+    if stale:
+        print("selftest: %d stale cases" % stale)
+        return 1
+    if "--check-apply" in args:
+        print("selftest: all %d cases apply" % len(load_cases()))
+        return 0
     scratch = tempfile.mkdtemp(prefix="raft-mut-")
     vscratch = tempfile.mkdtemp(prefix="raft-mut-verif-")
     try:
@@ -67,7 +86,7 @@ def main():
                     failures += 1
                     continue
                 for prop in c["props"]:
-                    rc, out = sh("%s/bin/raftcheck -prop %s -repo %s -verif %s" % (VERIF, prop, scratch, vscratch))
+                    rc, out = sh("%s -prop %s -repo %s -verif %s" % (os.environ.get("RAFTCHECK", VERIF + "/bin/raftcheck"), prop, scratch, vscratch))
                     viol = [l for l in out.splitlines() if l.startswith("VIOLATION")]
                     if benign:
                         ok = rc == 0 and not viol
